@@ -176,6 +176,23 @@ def run(ctx: Ctx) -> None:
                    "" if ok else f"the offspring's dna shares its inner gene lists with the parent (copy depth {depth}) and "
                                  f"{gcls.name} grows those lists in place when a genotype is mapped: evaluating the child appends "
                                  f"genes to the parent", witness={"copy_depth": depth, "needed": need})
+    # ... and what an operator returns is never the parent genotype object itself
+    for f in prog.implementations(REPR_MUT, "mutate") + prog.implementations(REPR_XO, "crossover"):
+        roots = [p_ for p_ in f.params if p_ == "genotype" or p_.startswith("parent")]
+        for r_ in walk_local(f.node):
+            if not (isinstance(r_, ast.Return) and r_.value is not None):
+                continue
+            vals = list(r_.value.elts) if isinstance(r_.value, ast.Tuple) else [r_.value]
+            for v_ in vals:
+                if isinstance(v_, ast.Name) and v_.id in roots:
+                    # re-bound before the return? (genotype = Genotype(...))
+                    rebinds = [a for a in walk_local(f.node) if isinstance(a, ast.Assign) and any(isinstance(t_, ast.Name) and t_.id == v_.id for t_ in a.targets)]
+                    if rebinds:
+                        continue
+                    n3 += 1
+                    ctx.ob("C09.R3", f, r_, f"{f.cls.name if f.cls else f.name}.{f.name}: the offspring is a new genotype object", False,
+                           f"'{norm(r_)[:50]}' hands the parent's own genotype back as the offspring: whatever later edits or grows the offspring's genes "
+                           f"in place changes the parent")
     ctx.floor("C09.R3", n3, 8, "offspring genotype constructions")
 
     # ---- R4 auto-vivifying attributes
